@@ -21,7 +21,8 @@ LEVEL_TEXT = ("For each of the 16 operation variants and each step of its exchan
               "is enumerated completely; garbage is sampled.")
 RULE = ("case = (operation, step of the exchange, fault reply); fault alphabet {EOF, one empty read while the stream goes on, the request echoed back, prefix of length 1..len-1, pattern bytes "
         "of length 1..1024, single corrupted field}; non-trivial = fault other than EOF, or EOF at a step > 1; distinct by "
-        "(kind, step, fault).")
+        "(kind, step, fault)."
+        ' Cases optionally run 0..3 good operations on the same connection first, carry a virtual clock up to 2^32 s, and the fault alphabet includes the request echoed back.')
 ASSUMPTIONS = [
     "an empty reply is modelled as the device half-closing the connection (reader.read returns b'' only at EOF); later reads are empty too",
     "connection resets are outside the fault alphabet",
